@@ -12,7 +12,7 @@ func init() { register("C13", runC13) }
 
 func runC13(c *Ctx) {
 	c.Explain("Narrow claim. Decides (1) headers == blocks: the proof-of-work fields of State are written only by ApplyHeader (plus genesis construction and decoding), and consensus.ApplyBlock returns exactly ApplyHeader(state-after-non-PoW-updates, b.Header(), targetTimestamp); (2) the header validation inventory: parent ID, median-timestamp, nonce factor and work-target guards with the right operands and operators, reached from ValidateOrphan and ValidateBlock with the block's own header; (3) era dispatch is a total case analysis on the child height against the v2 allow and final-cut heights, and PoWTarget reads the recorded ChildTarget before the final cut and the inverse of Difficulty after; (4) clamp shape: each era's adjustment returns a value that passes through its lower/upper clamp (final cut: max(.,1); v2: Difficulty -/+ Difficulty/250; Oak: ChildTarget*1004/1000 and *1000/1004, unclamped only at the ASIC reset height). The big-integer/duration arithmetic, monotonicity of work and the heavier-than relation are numeric and not decided.")
-	c.NotCovered("clamp arithmetic and totality of big-integer/duration arithmetic", "monotonicity of cumulative work", "inverse relation target/difficulty as arithmetic", "asymmetry of SufficientlyHeavierThan")
+	c.NotCovered("clamp arithmetic and totality of big-integer/duration arithmetic", "monotonicity of cumulative work", "inverse relation target/difficulty as arithmetic", "SufficientlyHeavierThan beyond the strictness and operands of its comparison")
 	ge := NewGuardEngine(c.P, c.Depth+4)
 	// (2) header inventory, from ValidateHeader and through ValidateBlock
 	hdr := func(entry, h string) []GuardReq {
@@ -27,6 +27,16 @@ func runC13(c *Ctx) {
 	tab = append(tab, hdr(VB, "call (*types.Block).Header({types.Block})")...)
 	runGuardTable(c, "header-guard", ge, tab)
 	c.Min("header-guard", 12)
+	// reorg rule: "sufficiently heavier" is a strict comparison (an asymmetric relation cannot hold both ways or of a state with itself)
+	if fn := c.P.Func("consensus.(State).SufficientlyHeavierThan"); fn != nil {
+		c.NoteFunc(FuncName(fn))
+		as := ge.ReturnAtoms(fn, 0)
+		re := mustRe(pat("(call (consensus.Work).Cmp({consensus.State}.TotalWork, call (consensus.Work).add({consensus.State#2}.TotalWork, …{consensus.State#2}.Difficulty…)) > const:0)"))
+		ok := len(as) == 1 && re.MatchString(as[0])
+		c.Check(ok, "heavier-strict", "SufficientlyHeavierThan", c.P.Pos(fn.Pos()), ifElse(ok, "s is sufficiently heavier than t iff s.TotalWork > t.TotalWork + a share of t.Difficulty (strict)", "SufficientlyHeavierThan returns "+joinShort(as)+": the relation must be the strict comparison of s.TotalWork with t.TotalWork plus a margin derived from t.Difficulty, otherwise two states can each be 'heavier' than the other"))
+	} else {
+		c.Undecided("heavier-strict", "SufficientlyHeavierThan", "", "anchor does not resolve")
+	}
 
 	// (1) writers of the PoW fields
 	pow := map[string]bool{"Index": true, "PrevTimestamps": true, "Depth": true, "ChildTarget": true, "OakTime": true, "OakTarget": true, "TotalWork": true, "Difficulty": true, "OakWork": true}
